@@ -140,7 +140,7 @@ def expr(c):
             d = s["depth"] * s["por"]
             cap = s["area"] * d
             tank = f"(t_init {C.qlit(cap)} {C.vlit(s['init'])} [] (2#1))"
-            ps = (f"(mkPS {C.qlit(d)} {C.qlit(s['fc'] * s['depth'])} {C.qlit(s['wp'] * s['depth'])} {C.qlit(s['infil'])} {C.qlit(s['sc'])} "
+            ps = (f"(mkPerv {C.qlit(d)} {C.qlit(s['fc'] * s['depth'])} {C.qlit(s['wp'] * s['depth'])} {C.qlit(s['infil'])} {C.qlit(s['sc'])} "
                   f"{C.qlit(s['pc'])} {C.qlit(s['et0c'])} {C.qlit(s['p'])} {C.qlit(W_PREV)} {C.qlit(W_AIR)} {C.qlit(DEEP_TERM)} {C.qlit(W_TOTAL)})")
             sfs.append(f"mkSF (SPerv {ps}) {C.qlit(s['area'])} {tank} {C.veclit(s['load'])}")
     zero = "(mkV 0 [] [])"
